@@ -13,6 +13,7 @@ def world():
                'mod_segment', 'segment_num', 'program_id', 'a', 'b'):
         w[nm] = z3.Int(nm)
     w['inband'] = z3.Bool('inband')
+    w['MPEG_TIMEBASE'] = 90000
     w['segdur'] = z3.Function('segdur', INT, INT)
     w['__bases__'] = {'Scte35Events': ['RepeatingEventBase'], 'PingPongEvents': ['RepeatingEventBase']}
     # a = segment start, b = segment end, both in the event timebase
@@ -122,8 +123,102 @@ CREATE_EMSG_BOXES = Contract(
 )
 
 
+# ----------------------------------------------------------------------------- manifest-side listing
+def ctor_event_stream(eng, args, kw):
+    return Obj('EventStream', {'schemeIdUri': kw['schemeIdUri'], 'value': kw['value'], 'timescale': kw['timescale'],
+                               'inband': kw['inband'],
+                               'events': ArrList('events', {'id': INT, 'presentationTime': INT, 'duration': INT},
+                                                 length=z3.IntVal(0), elem_cls='DashEvent')})
+
+
+def append_event(eng, e, args, kw):
+    d = args[0]
+    stream = eng.eval(e.func.value.value)
+    stream.f['events'] = stream.f['events'].appended({'id': d['id'], 'presentationTime': d['presentationTime'],
+                                                      'duration': d['duration']})
+    return None
+
+
+append_event.modifies = ['stream.events']
+
+CREATE_MANIFEST_CONTEXT = Contract(
+    key=f'{REB}:RepeatingEventBase.create_manifest_context', props=['C14'],
+    env=lambda w: {'self': event_obj(w), 'context': {}},
+    requires=[('count_nonneg', 'self.count >= 0')],
+    ctors={'EventStream': ctor_event_stream},
+    models={'self.get_manifest_event_payload': lambda eng, e, args, kw: Opaque('payload'),
+            'stream.events.append': append_event},
+    loops={0: Loop(
+        invariant=[('it', '0 <= _it0 and _it0 <= self.count'),
+                   ('pt', 'presentation_time == self.start + _it0 * self.interval'),
+                   ('len', 'length(stream.events) == _it0'),
+                   ('events', 'forall(lambda k: stream.events[k].id == k and stream.events[k].duration == self.duration and '
+                              'stream.events[k].presentationTime == self.start + k * self.interval, 0, length(stream.events))')],
+        variant=['_hi0 - _it0'])},
+    ensures=[('schedule', 'length(result.events) == (0 if self.inband else self.count)'),
+             ('entries', 'forall(lambda k: result.events[k].id == k and result.events[k].duration == self.duration and '
+                         'result.events[k].presentationTime == self.start + k * self.interval, 0, length(result.events))'),
+             ('stream', 'result.timescale == self.timescale and result.inband == self.inband')],
+    canaries=['length(result.events) == 0'],
+    witness_terms=emsg_witness,
+)
+
+
+# ----------------------------------------------------------------------------- SCTE-35 signal of an event
+def rec(cls):
+    def ctor(eng, args, kw):
+        return Obj(cls, dict(kw))
+    return ctor
+
+
+CREATE_BINARY_SIGNAL = Contract(
+    key=f'{SCTE}:Scte35Events.create_binary_signal', props=['C14', 'C16'],
+    env=lambda w: {'self': event_obj(w, 'Scte35Events'), 'event_id': z3.Int('event_id'),
+                   'presentation_time': z3.Int('presentation_time')},
+    # region: the schedule values fit the SCTE-35 field widths (8-bit avail counters, 33-bit durations): known
+    # findings C14-scte35-avail-8bit / C14-scte35-duration-33bit outside it
+    requires=[('ets_pos', 'self.timescale >= 1'), ('id', 'event_id >= 0'), ('pt', 'presentation_time >= 0'),
+              ('count', 'self.count >= 0 and (self.count == 0 or event_id < self.count)'),
+              ('duration', 'self.duration >= 0'),
+              ('region_avail_8bit', 'self.count < 510'),
+              ('region_duration_33bit', 'self.duration * 90000 // self.timescale < 8589934592'),
+              ('region_event_id_32bit', 'event_id < 4294967296'), ('program_id_16bit', '0 <= self.program_id and self.program_id < 65536')],
+    models={'attr:descriptors.SegmentationTypeId.PROVIDER_PLACEMENT_OP_START': lambda eng: 0x34,
+            'attr:SapType.CLOSED_GOP_NO_LEADING_PICTURES': lambda eng: 0},
+    ctors={'BinarySignal': rec('BinarySignal'), 'SpliceInsert': rec('SpliceInsert'),
+           'descriptors.SegmentationDescriptor': rec('SegmentationDescriptor')},
+    ensures=[
+        ('pts', 'result.splice_insert.splice_time["pts"] == (presentation_time * 90000 // self.timescale) % 8589934592'),
+        ('break_duration', 'result.splice_insert.break_duration["duration"] == self.duration * 90000 // self.timescale'),
+        ('auto_return', 'result.splice_insert.break_duration["auto_return"] == (event_id % 2 == 0)'),
+        ('event_id', 'result.splice_insert.splice_event_id == event_id and result.splice_insert.unique_program_id == self.program_id'),
+        ('widths', '0 <= result.splice_insert.splice_time["pts"] and result.splice_insert.splice_time["pts"] < 8589934592 and '
+                   '0 <= result.splice_insert.break_duration["duration"] and result.splice_insert.break_duration["duration"] < 8589934592 and '
+                   '0 <= result.splice_insert.avail_num and result.splice_insert.avail_num < 256 and '
+                   '0 <= result.splice_insert.avails_expected and result.splice_insert.avails_expected < 256 and '
+                   'result.splice_insert.splice_event_id < 4294967296'),
+        ('avail', 'result.splice_insert.avail_num <= result.splice_insert.avails_expected'),
+        ('segmentation', 'result.descriptors[0].segmentation_type == 52 + event_id % 2 and '
+                         'result.descriptors[0].segmentation_event_id == result.splice_insert.avail_num'),
+    ],
+    canaries=['result.splice_insert.avail_num == 0'],
+    witness_terms=lambda w: (lambda ev: {k: ev(z3.Int(k) if k in ('event_id', 'presentation_time') else w[k])
+                                         for k in ('event_id', 'presentation_time', 'count', 'duration', 'ets', 'program_id')}),
+)
+
+
 GROUP = Group(
     name='events',
     world=world,
-    contracts=[CREATE_EMSG_BOXES],
+    contracts=[CREATE_EMSG_BOXES, CREATE_MANIFEST_CONTEXT, CREATE_BINARY_SIGNAL],
+    assumptions=['C14: EventMessageBox / EventStream / BinarySignal / SpliceInsert / SegmentationDescriptor constructors are '
+                 'records of their keyword arguments; payload generation (get_*_event_payload) is abstract in '
+                 'create_emsg_boxes / create_manifest_context',
+                 'C14: MPEG_TIMEBASE == 90000 (dashlive/mpeg/__init__.py)'],
+    not_covered=['SCTE-35 binary encode/parse round trip and CRC (BitsFieldWriter/Reader traces): not built; the field '
+                 'values handed to the encoder and their widths are proved (create_binary_signal/post.widths)',
+                 'EventFactory / option parsing -> preconditions of create_emsg_boxes (interval >= 1): known findings under C16',
+                 'exactly-once across consecutive segments: follows from the per-segment exact-set postcondition only if '
+                 'consecutive segments have b(k) == a(k+1), i.e. the same floor of the same tick count (C02 gaplessness); '
+                 'stated, not mechanised'],
 )
